@@ -217,7 +217,7 @@ def gen_world(rng, *, convs=CONVS, max_n=5, max_faces=10, max_vars=5, allow_hole
         extra_pool.append([tdim, spec['time']['n']])
     else:
         spec['time'] = None
-    extra_pool.append(['k', rng.randint(1, 3)])
+    extra_pool.append(['lev', rng.randint(1, 3)])
     extra_pool.append(['band', rng.randint(1, 2)])
 
     if conv == 'cf1d':
@@ -302,6 +302,54 @@ def gen_world(rng, *, convs=CONVS, max_n=5, max_faces=10, max_vars=5, allow_hole
     spec['vars'] = _gen_vars(rng, kinds, max_vars, extra_pool, allow_perm=allow_perm,
                              min_vars=min_vars)
     spec['materialise'] = materialise or rng.choice(['memory', 'memory', 'file', 'file_raw', 'chunked'])
+    return spec
+
+
+DEPTH_NAMES = {
+    'shoc_simple': [('zc', 'k'), ('zcsed', 'ksed')],
+    'shoc_standard': [('z_centre', 'k_centre'), ('z_centre_sed', 'k_centre_sed'), ('z_grid', 'k_grid')],
+    None: [('depth', 'depth'), ('zlev', 'kz'), ('sed_depth', 'ksed')],
+}
+
+
+def add_depths(rng, spec, *, max_layers=4, n_depths=None):
+    """Give a world 1-3 depth coordinates on distinct dimensions and put float variables on them."""
+    pool = list(DEPTH_NAMES.get(spec['conv'], DEPTH_NAMES[None]))
+    n = n_depths or rng.choice([1, 2, 2, 3])
+    n = min(n, len(pool))
+    chosen = pool[:n] if spec['conv'].startswith('shoc') else rng.sample(pool, n)
+    depths = []
+    for name, dim in chosen:
+        nk = rng.randint(2, max_layers)
+        steps = [round(rng.uniform(0.5, 3.0), 3) for _ in range(nk)]
+        phys = [round(0.25 + sum(steps[:k]), 3) for k in range(nk)]       # increasing = deeper
+        positive = rng.choice(['up', 'down'])
+        order = rng.choice(['shallow_to_deep', 'deep_to_shallow'])
+        vals = phys if order == 'shallow_to_deep' else phys[::-1]
+        if positive == 'up':
+            vals = [-v for v in vals]
+        attrs = {'positive': positive, 'long_name': name}
+        if rng.random() < 0.5:
+            attrs['axis'] = 'Z'
+        depths.append({'name': name, 'dim': dim, 'values': vals, 'attrs': attrs, 'positive': positive,
+                       'order': order, 'nk': nk})
+    spec['depths'] = depths
+    spec['floor_seed'] = rng.randrange(1 << 30)
+    # put variables on depth dimensions: floats, no fill attribute, no random missing cells
+    any_depth = False
+    for vi, v in enumerate(spec['vars']):
+        if v['kind'] is None:
+            continue
+        if rng.random() < 0.85 or not any_depth:
+            d = depths[vi % len(depths)] if rng.random() < 0.7 else rng.choice(depths)
+            v['depth'] = d['name']
+            v['dtype'] = rng.choice(['f8', 'f4'])
+            v['fill'] = None
+            v['fillv'] = None
+            v['missing_frac'] = 0
+            pos = rng.randint(0, len(v['extra']))
+            v['extra'] = v['extra'][:pos] + [[d['dim'], d['nk']]] + v['extra'][pos:]
+            any_depth = True
     return spec
 
 
@@ -415,6 +463,10 @@ class World:
                     if r.random() < v['missing_frac']:
                         miss.add(lin)
             info['missing'] = miss
+            if v.get('depth'):
+                ddim = self.depth(v['depth'])['dim']
+                info['depth_ix'] = edims.index(ddim)
+                info['depth_dim'] = ddim
             self.vars[v['name']] = info
 
     def value(self, name, lin, eidx, variant=0):
@@ -422,8 +474,60 @@ class World:
         v = self.vars[name]
         if lin in v['missing']:
             return None
+        if v.get('depth'):
+            k = eidx[v['depth_ix']]
+            if self.physical_layer(v['depth'], k) >= self.wet_layers(v['depth'], v['kind'])[lin]:
+                return None
         elin = int(numpy.ravel_multi_index(eidx, v['eshape'])) if v['eshape'] else 0
         return v['base'] + variant * v['shift'] + elin * v['gsize'] + lin
+
+    # -- depth / sea floor ------------------------------------------------------------------
+    def depth(self, name):
+        return next(d for d in self.spec['depths'] if d['name'] == name)
+
+    def physical_layer(self, depth_name, k):
+        """0 = shallowest physical layer for stored index k."""
+        d = self.depth(depth_name)
+        return k if d['order'] == 'shallow_to_deep' else d['nk'] - 1 - k
+
+    def stored_index(self, depth_name, p):
+        d = self.depth(depth_name)
+        return p if d['order'] == 'shallow_to_deep' else d['nk'] - 1 - p
+
+    def wet_layers(self, depth_name, kind):
+        """per linear index of `kind`: number of wet layers (0..nk), static, shared by all variables on (depth, kind)."""
+        key = (depth_name, kind)
+        cache = self.__dict__.setdefault('_wet', {})
+        if key not in cache:
+            import random
+            d = self.depth(depth_name)
+            r = random.Random(f"{self.spec['floor_seed']}/{depth_name}/{kind}")
+            size = self.kinds[kind]['size']
+            style = r.choice(['random', 'random', 'all_wet', 'staircase'])
+            if style == 'all_wet':
+                w = [d['nk']] * size
+            elif style == 'staircase':
+                w = [(i % (d['nk'] + 1)) for i in range(size)]
+            else:
+                w = [r.randint(0, d['nk']) for _ in range(size)]
+            cache[key] = w
+        return cache[key]
+
+    def floor_array(self, name, variant=0):
+        """Expected ocean-floor reduction of a depth variable: float64 with dims (edims minus depth..., 'lin')."""
+        v = self.vars[name]
+        dix = v['depth_ix']
+        eshape = [n for i, n in enumerate(v['eshape']) if i != dix]
+        out = numpy.full(eshape + [v['gsize']], numpy.nan)
+        wet = self.wet_layers(v['depth'], v['kind'])
+        for eidx in itertools.product(*[range(n) for n in eshape]):
+            for lin in range(v['gsize']):
+                if wet[lin] == 0:
+                    continue
+                k = self.stored_index(v['depth'], wet[lin] - 1)
+                full = eidx[:dix] + (k,) + eidx[dix:]
+                out[eidx + (lin,)] = self.value(name, lin, full, variant)
+        return out
 
     def canonical_array(self, name, variant=0):
         """float64 array with dims (edims..., 'lin'), NaN for missing."""
